@@ -50,8 +50,18 @@ def rule_error_isolation(ctx, p, cfg, rid="F3"):
                   fail_detail="%s is applied in the delivery function: a recorded error can be dropped before it is returned" % (shr[0].callee if shr else ""))
         # the errors are returned as Err(list) when non-empty
         rets = q.ret_assignments(nl)
-        r.require(any(q.classify_ret(e) == "err" for b, e in rets) and any(q.classify_ret(e) == "ok" for b, e in rets), "returns-collected-errors", fn=nl,
-                  detail="returns Err(errors) / Ok(())")
+        as_result = any(q.classify_ret(e) == "err" for b, e in rets) and any(q.classify_ret(e) == "ok" for b, e in rets)
+        # .. or the list itself (an empty list meaning that nothing went wrong): every return is the list the errors are pushed to
+        from l4sa.panics import _root_local
+        def _list_of(c):
+            rp = c.t["args"][0].get("move") or c.t["args"][0].get("copy")
+            rd = [d_ for d_ in nl.defs(rp["l"])] if rp and not rp["p"] else []
+            return _root_local(nl, rd[0][4]["place"]["l"]) if len(rd) == 1 and rd[0][3] == "rv" and rd[0][4]["k"] == "ref" and not rd[0][4]["place"]["p"] else None
+        lists = {_list_of(c) for c in pushes} - {None}
+        rl = {_root_local(nl, (st["rv"]["a"].get("move") or st["rv"]["a"].get("copy") or {"l": -1})["l"]) for b, i, st in nl.assigns() if st["lhs"]["l"] == 0 and not st["lhs"]["p"] and st["rv"]["k"] == "use" and "const" not in st["rv"]["a"]}
+        as_list = "Vec<" in (nl.d.get("sig") or "").rsplit("->", 1)[-1] and "Result<" not in (nl.d.get("sig") or "").rsplit("->", 1)[-1] and len(lists) == 1 and rl == lists
+        r.require(as_result or as_list, "returns-collected-errors", fn=nl,
+                  detail="returns Err(errors) / Ok(()), or the list of errors itself")
         # one delivery per attachment: the single appender call is in exactly one loop, argument indexes table with the loop item
         a0 = ds.arg(0)
         idx = [x for x in walk(a0) if x[0] == "index"]
@@ -93,7 +103,21 @@ def run_cfg(ctx, p, cfg):
             e = strip(si.discr)
             return e[0] == "discr" and strip(e[1])[0] == "call" and strip(e[1])[1] == FILTER
         resp_sw = [SwitchInfo(d, b["id"]) for b in d.blocks if b["term"]["k"] == "switch" and b["id"] in d.reachable_blocks() and is_resp(SwitchInfo(d, b["id"]))]
-        if not resp_sw:
+
+        def eq_test(si):
+            """(op, variant) if the switch decides `response == Variant` / `response != Variant`"""
+            if not si.is_bool:
+                return None
+            nf = cmp_nf(si.discr, True)
+            if not nf or nf[0] not in ("Eq", "Ne"):
+                return None
+            a, b = deep_strip(nf[1]), deep_strip(nf[2])
+            for x, y in ((a, b), (b, a)):
+                if x[0] == "call" and x[1] == FILTER and ((y[0] == "agg" and not y[3]) or y[0] == "const") and str(y[2]) in ("Accept", "Neutral", "Reject"):
+                    return nf[0], str(y[2])
+            return None
+        eq_sw = {b["id"]: eq_test(SwitchInfo(d, b["id"])) for b in d.blocks if b["term"]["k"] == "switch" and b["id"] in d.reachable_blocks() and eq_test(SwitchInfo(d, b["id"]))}
+        if not resp_sw and not eq_sw:
             raise ShapeUnrecognised("no discriminant switch on the Filter::filter response in %s (derived == comparisons are not enumerated)" % d.path)
         nb = [c.block for c in d.calls(NEXT)]
 
@@ -106,6 +130,13 @@ def run_cfg(ctx, p, cfg):
                     continue
                 seen.add(b)
                 t = d.term(b)
+                if t["k"] == "switch" and b in eq_sw:
+                    op_, tested = eq_sw[b]
+                    val = (variant == tested) if op_ == "Eq" else (variant != tested)
+                    tgt = SwitchInfo(d, b).target_of(val)
+                    if tgt is not None:
+                        todo.append(tgt)
+                    continue
                 if t["k"] == "switch" and any(si.b == b for si in resp_sw):
                     si = [x for x in resp_sw if x.b == b][0]
                     for lab, tgt in si.labelled_edges():
@@ -119,6 +150,8 @@ def run_cfg(ctx, p, cfg):
         for si in resp_sw:
             for lab, tgt in si.labelled_edges():
                 covered |= {lab} if not isinstance(lab, tuple) else set(lab[1])
+        for b_, (op_, tested) in eq_sw.items():
+            covered |= {"Accept", "Neutral", "Reject"} if len(eq_sw) + len(resp_sw) >= 2 else {tested}
         for need in ("Accept", "Neutral", "Reject"):
             if need not in covered:
                 raise ShapeUnrecognised("Response::%s is not decided by the tests on the filter response" % need)
@@ -202,8 +235,12 @@ def run_cfg(ctx, p, cfg):
             r.require(ll.in_loop(h.block), "handler-in-loop", fn=ll, site=h.at, detail="handler is called inside the loop over the errors")
             arg = h.arg(1)
             site = ro["node_log_site"]
-            src_ok = any(x[0] == "as" and x[2] == "Err" and strip(x[1])[0] == "call" and strip(x[1])[1] == site.callee for x in walk(arg)) and \
-                any(x[0] == "call" and x[1] == NEXT for x in walk(arg))
+            # the list iterated is what the delivery returned: the Err payload of its Result, or the list itself when it returns one
+            its = [x for x in walk(arg) if x[0] == "call" and x[1] == NEXT]
+            from_result = any(x[0] == "as" and x[2] == "Err" and strip(x[1])[0] == "call" and strip(x[1])[1] == site.callee for x in walk(arg))
+            plain_list = "Vec<" in (p.fns[site.callee].d.get("sig") or "").rsplit("->", 1)[-1] and "Result<" not in (p.fns[site.callee].d.get("sig") or "").rsplit("->", 1)[-1] and \
+                any(x[0] == "call" and x[1] == site.callee for i_ in its for x in walk(i_[2][0]))
+            src_ok = bool(its) and (from_result or plain_list)
             r.require(src_ok, "handler-gets-each-error", fn=ll, site=h.at, detail="handler argument is the iterator item of the returned error vector: %s" % show(arg, 7))
             nb = [c.block for c in ll.calls(NEXT)]
             r.require(len(nb) == 1 and h.block not in ll.reach(h.block, avoid=set(nb)), "one-call-per-item", fn=ll,
